@@ -26,17 +26,21 @@ META = dict(
                 'state machine (file_buffer put side, file::close/~file/save_to/make_permanent, owners): spill iff size > limit, every file '
                 'created is closed and removed exactly once on ready / 400 / 413 / aborted and for every behaviour of the application, never '
                 'while the application still holds it; (9) content_type::parse on every well-formed header: boundary = exactly the value of '
-                'the first boundary parameter; (10) limits exact at n-1/n/n+1. Leaf functions separator / ascii_to_lower / xdigit and the '
+                'the first boundary parameter; (10) limits exact at n-1/n/n+1; (11) temporary files when fopen/fwrite/fflush/fclose FAIL at any point: '
+                'every object - the one whose spill itself failed included - leaves no descriptor and no file when destroyed, whatever fails during '
+                'close; a failed final flush of a part is reported as no_room_left; (12) stream state left by a reading content filter: fields are '
+                'delivered whole in EVERY state (any position, failbit set or not). Leaf functions separator / ascii_to_lower / xdigit and the '
                 'limit decisions (spill switch, buffer growth, on_content_start, size_ok, default limits) are regenerated from the current '
                 'source and proved equal to the model leafs.'),
     level_note=('Trusted: Coq kernel + vm_compute; cxx2v translator and clang AST (3 leaf functions only); ExtrOcamlBasic extraction; '
                 'the hand model of the parser, header parser and request driver is tied to the code by differential testing only '
                 '(bare multipart_parser with explicit cut lists incl. every 2-cut of small bodies; whole requests through a running '
                 'cppcms::service over SCGI with limits/filters/buffer sizes), not by proof. The resource model of the upload files '
-                '(coq/C12/ResDefs.v) assumes that fopen/fwrite/fclose/rename/remove succeed; it is tied by counting directory entries and '
+                '(coq/C12/ResDefs.v) assumes that fopen/fwrite/fclose/rename/remove succeed, coq/C12/FaultDefs.v lets fopen/fwrite/fflush/fclose fail '
+                '(tied by fault injection in the bare-parser harness: interposed libc calls, per-file byte quota); both are tied by counting directory entries and '
                 'open descriptors (via /proc/self/fd) in both harnesses at: end of parsing, application start, application end (after '
                 'close/save_to/make_permanent/kept references), request destroyed, references dropped. no_room_left (upload write '
-                'failure) and the read side of file_buffer are not modelled. HTTP and FastCGI front ends are not used for C12.'),
+                'failure) is modelled for the bare parser only; of the read side of file_buffer only position and failbit of the part streams are modelled. HTTP and FastCGI front ends are not used for C12.'),
 )
 
 LIM_TU = os.path.join(vlib.WORK, 'C12', 'C12_limit_leafs.cpp')
@@ -412,7 +416,7 @@ def gen_cases(ctx):
         return key, [], encode_body(rng, key, [], style)
 
     # 1. well-formed small bodies, EVERY 2-cut (all2) + 1-byte feeding + hot 3..6-cuts
-    for i in range(ctx.scale(360, 4000)):
+    for i in range(ctx.scale(320, 4000)):
         style = PLAIN if i % 3 == 0 else FANCY
         key, parts, body = small_body(style)
         assert independent_split(key, body) == [p[3] for p in parts], (key, parts, body)
@@ -554,6 +558,36 @@ def gen_cases(ctx):
         cases.append('mp %d %s %s %s B/%s' % (rng.choice(MEMS), hexs(enc_ct(rng, key, PLAIN)), rng.choice(['-', 'b1', 'b5']), hexs(bytes(out)), expect_token(parts)))
         if i % 4 == 0 and len(out) <= 300:
             cases.append('all2 %d %s %s B/%s' % (rng.choice(MEMS), hexs(enc_ct(rng, key, PLAIN)), hexs(bytes(out)), expect_token(parts)))
+
+    # 7. I/O faults on the temporary files (fi): per-file byte quota (ENOSPC from that size on) below / at / above the in-memory limit,
+    #    inside the upload (a later flush of the 1 KiB put area fails) and at its very end (only the final flush fails); fopen failing;
+    #    fflush failing; fclose reporting an error; combinations.  Whatever fails: nothing may be left behind when the parser is gone.
+    for i in range(ctx.scale(160, 1400)):
+        key = gen_key(rng)
+        mem = rng.choice([0, 1, 5, 64, 100, 1024, 2000])
+        parts = []
+        for _ in range(rng.choice([1, 1, 2, 3])):
+            ln = max(0, mem + rng.choice([-1, 0, 1, 2, 700, 1024, 1025, 1026, 2100, 3300]))
+            data = (gen_content(rng, key, min(ln, 64)) + b'z' * ln)[:ln]
+            while b'\r\n--' + key in data:
+                j = data.index(b'\r\n--' + key)
+                data = data[:j] + b'x' + data[j + 1:]
+            is_file = rng.random() < 0.7
+            parts.append((gen_hvalue(rng), gen_hvalue(rng) if is_file else None, rng.choice(MIMES) if is_file else b'', data))
+        body = encode_body(rng, key, parts, PLAIN)
+        big = max(len(p[3]) for p in parts)
+        fl = []
+        r = rng.random()
+        if r < 0.75:
+            fl.append('q%d' % max(0, rng.choice([mem - 1, mem, mem + 1, mem + 1023, mem + 1024, mem + 1025, big - 1, big, big + 1, rng.randrange(0, big + 2), 0])))
+        if rng.random() < 0.12:
+            fl.append('o')
+        if rng.random() < 0.2:
+            fl.append('s')
+        if rng.random() < 0.25:
+            fl.append('c')
+        cuts = rng.choice(['-', 'b1', 'b7', 'b1000', random_cuts(rng, len(body), 3)]) if len(body) < 4000 else rng.choice(['-', 'b1000'])
+        cases.append('fi %d %s %s %s %s' % (mem, hexs(enc_ct(rng, key, PLAIN)), cuts, hexs(body), '.'.join(fl) or '-'))
     return cases
 
 
@@ -609,7 +643,7 @@ def gen_rq_cases(ctx):
         return random_cuts(rng, n, rng.randrange(1, 8))
 
     # A. well-formed multipart bodies, limits swept around the sizes that matter
-    for i in range(ctx.scale(450, 4000)):
+    for i in range(ctx.scale(400, 4000)):
         style = PLAIN if i % 3 == 0 else FANCY
         key = gen_key(rng)
         big = rng.random() < 0.12
@@ -634,7 +668,7 @@ def gen_rq_cases(ctx):
             line(mode, cl, mp, mem, buf, n, ct, sp, body, rq_expect(mode, cl, mp, parts, body))
 
     # B. declared length and bytes that arrive disagree / truncated / trailing bytes: never delivered
-    for i in range(ctx.scale(250, 3000)):
+    for i in range(ctx.scale(220, 3000)):
         key = gen_key(rng)
         parts = gen_parts(rng, key, rng.choice([0, 1, 2, 3]), rng.choice([0, 3, 10, 30]))
         body = encode_body(rng, key, parts, PLAIN if i % 2 else FANCY)
@@ -659,7 +693,7 @@ def gen_rq_cases(ctx):
         line(mode, 10 ** 6, 10 ** 6, rng.choice([0, 5, 10 ** 6]), rng.choice(BUFS), declared, ct, cuts_for(sent, key), sent, exp)
 
     # C. malformed multipart (mutated), odd content types: correspondence + protocol invariants only
-    for i in range(ctx.scale(250, 3000)):
+    for i in range(ctx.scale(220, 3000)):
         key = gen_key(rng)
         parts = gen_parts(rng, key, rng.choice([1, 2, 3]), rng.choice([0, 3, 10, 30]))
         body = encode_body(rng, key, parts, FANCY)
@@ -755,6 +789,12 @@ def gen_rq_cases(ctx):
         n = len(body)
         nfiles = sum(1 for p in parts if p[2])
         acts = '.'.join(rng.choice('cspk') + str(rng.randrange(0, nfiles + 1)) for _ in range(rng.choice([0, 1, 1, 2, 3, 5]))) or '-'
+        if nfiles and rng.random() < 0.25:
+            # make one file permanent without the application ever reading it (nothing but close() may flush its last bytes);
+            # the other actions go to the other files
+            k = rng.randrange(0, nfiles)
+            others = [a for a in acts.split('.') if a != '-' and int(a[1:]) != k and a[0] != 'p']   # a single permanent file: it is found by elimination
+            acts = '.'.join(others[:1] + ['P%d' % k] + others[1:])
         mode = rng.choice('nnm')
         r = rng.random()
         if r < 0.75:
@@ -791,6 +831,21 @@ def gen_rq_cases(ctx):
             declared, sent, exp = n, mutate(rng, body)[:n].ljust(n, b'x'), '-'
         line('a%d' % k, 10 ** 7, 10 ** 7, rng.choice([0, 5, 10 ** 6]), rng.choice(BUFS), declared, ct, cuts_for(sent, key), sent, exp)
 
+    # H. multipart filters that READ the parts (all / half at buffer level, seek to the end / the middle, all with istream::read which
+    #    leaves eofbit|failbit) in on_new_file / on_upload_progress / on_data_ready and do not rewind: every combination, fields and files
+    #    below and above file_in_memory_limit, all kinds of chunkings.  What the application gets must not depend on it.
+    rcombos = [a + b + c2 for a in 'napems' for b in ('n' if a == 's' else 'naem') for c2 in 'napems']
+    rng.shuffle(rcombos)
+    for i in range(ctx.scale(80, 3 * len(rcombos))):
+        key = gen_key(rng)
+        parts = gen_parts(rng, key, rng.choice([1, 2, 3, 4]), rng.choice([0, 1, 3, 30, 200, 1100]))
+        body = encode_body(rng, key, parts, PLAIN if i % 2 else FANCY)
+        ct = enc_ct(rng, key, PLAIN).replace(b'\0', b'x')
+        mode = 'R' + rcombos[i % len(rcombos)]
+        mem = rng.choice([0, 1, 64, 10 ** 6] + [max(0, len(p[3]) + d) for p in parts for d in (-1, 0)])
+        line(mode, 10 ** 7, 10 ** 7, mem, rng.choice(BUFS), len(body), ct, cuts_for(body, key) if len(body) < 800 else rng.choice(['-', 'b64', 'b1024']), body,
+             rq_expect('m', 10 ** 7, 10 ** 7, parts, body))
+
     # E2. EXHAUSTIVE: every sequence of application actions up to length 2 (thorough: 3) over the two files of one request -
     #     one file of exactly file_in_memory_limit bytes (stays in memory), one of limit+1 bytes (temporary file), and a field over the limit
     import itertools
@@ -800,6 +855,9 @@ def gen_rq_cases(ctx):
         body = encode_body(rng, key, parts, PLAIN)
         ct = b'multipart/form-data; boundary=' + key
         alphabet = [a + str(k) for a in 'cspk' for k in (0, 1)]
+        for seq in (['P1'], ['P0'], ['k0', 'P1'], ['P1', 'k1'], ['c0', 'P1'], ['P1', 's0']):
+            cases.append('rf n %d %d %d 4096 %d %s - %s %s %s' % (10 ** 7, 10 ** 7, mem, len(body), hexs(ct), hexs(body), '.'.join(seq),
+                                                                 rq_expect('n', 10 ** 7, 10 ** 7, parts, body)))
         for ln in range(0, ctx.scale(3, 4 if mem == 5 else 3)):
             for seq in itertools.product(alphabet, repeat=ln):
                 cases.append('rf n %d %d %d 4096 %d %s - %s %s %s' % (10 ** 7, 10 ** 7, mem, len(body), hexs(ct), hexs(body), '.'.join(seq) or '-',
@@ -866,6 +924,8 @@ def parse_rq(o):
     r['raw'] = t[i][4:]; i += 1
     a, b = t[i][4:].split(','); r['tmp_main'], r['tmp_after'] = int(a), int(b); i += 1
     a, b = t[i][3:].split(','); r['fd_main'], r['fd_after'] = int(a), int(b); i += 1
+    if i < len(t) and t[i].startswith('hand='):
+        r['hand'] = t[i][5:]; i += 1
     if i < len(t) and t[i] == 'R':
         s2, s3 = t[i + 1].split(';')
         r['s2'] = tuple(int(x) for x in s2.split(','))      # (descriptors, directory entries) when the application returns
@@ -912,7 +972,7 @@ def oracle_rq(case, out):
         elif a == 's':
             if f['spilled']:
                 f['open'] = False; f['disk'] = False
-        elif a == 'p':
+        elif a in 'pP':
             f['temp'] = False
         elif a == 'k':
             f['kept'] = True
@@ -931,7 +991,7 @@ def oracle_rq(case, out):
                 % (r['s2'], want2, r['s3'], want3, acts, sizes, mem))
     if rf and st != '200' and (r['s2'] != (0, 0) or r['s3'] != (0, 0)):
         return ('temp-file-left-behind', 'refused request: descriptors/files left %s %s' % (r['s2'], r['s3']))
-    filt = declared > 0 and mode[0] in 'mra'
+    filt = declared > 0 and mode[0] in 'mraR'
     if st == '200':
         want_tmp = sum(1 for f in r['files'] if (0 if f[3] == '-' else len(f[3]) // 2) > mem)
         if r['tmp_main'] != want_tmp:
@@ -958,9 +1018,11 @@ def oracle_rq(case, out):
     elif r['raw'] != '-':
         return ('raw-filter-bytes', 'raw data reported without a raw filter')
     is_mp = unhex(c[7]).lstrip(b' \t').lower().startswith(b'multipart/form-data')
-    if mode[0] in 'ma' and not is_mp:
+    if mode[0] in 'maR' and not is_mp:
         if r['new'] or r['ready']:
             return ('filter-called-without-multipart', 'multipart filter events for a body that is not multipart/form-data')
+    elif mode[0] == 'R':
+        pass        # reading filter: what it saw and what is delivered is judged below, against the expectation
     elif mode[0] in 'ma':
         if st == '200':
             seen = r['ready']
@@ -974,6 +1036,20 @@ def oracle_rq(case, out):
             return ('filter-new-vs-ready', 'on_new_file called %d times, on_data_ready %d times' % (r['new'], len(r['ready'])))
     elif r['new'] or r['ready']:
         return ('filter-called-without-filter', 'multipart filter events without a multipart filter')
+    if mode[0] == 'R' and st == '200' and expect not in ('-', '!') and expect.split('/')[0] == '200':
+        e = expect.split('/')
+        want = [tuple(e[2 + 4 * i:6 + 4 * i]) for i in range(int(e[1]))]
+        wfields = sorted(w[0] + '=' + w[3] for w in want if w[2] == '-')
+        if sorted(r['post']) != wfields:
+            # a filter that leaves failbit behind (stream-level read to the end of the part): repaired by /repo ebeb88c; every
+            # filter behaviour must not change what is delivered
+            failbit = mode[1] == 's' or mode[3] == 's'
+            return ('field-cut-after-filter-read-to-eof' if failbit else 'field-cut-after-filter-read',
+                    'form fields delivered with a reading multipart_filter (%s) differ from those encoded: %s vs %s' % (mode, sorted(r['post'])[:4], wfields[:4]))
+        if mode[3] in 'as' and mode[1] != 's':
+            seen = [tuple(x) for x in r['ready']]
+            if seen != want:
+                return ('filter-sees-other-content', 'on_data_ready of a reading filter (%s) did not see the parts from their beginning' % mode)
     if expect == '-':
         return None
     if expect == '!':
@@ -1009,6 +1085,40 @@ def oracle_rq(case, out):
     return None
 
 
+def oracle_fi(c, out):
+    """I/O faults: whatever failed, when the parser and its files are gone no temporary file exists and no descriptor is open;
+    an entry reported complete is readable in full (a write fault must surface as no_room_left, not as a silently cut file)"""
+    if out.startswith('<crash'):
+        return ('crash-fi', 'harness died under an injected I/O fault: ' + out)
+    if out == 'fi refused':
+        return None
+    t = out.split()
+    try:
+        status, n = t[1], int(t[2])
+        ents = [x.split(':') for x in t[3:3 + n]]
+        kv = dict(x.split('=') for x in t[3 + n:])
+        tmp_alive, tmp_after = [int(x) for x in kv['tmp'].split(',')]
+        fd_alive, fd_after = [int(x) for x in kv['fd'].split(',')]
+    except Exception as e:
+        return ('bad-output', 'cannot parse harness answer (%s): %s' % (e, out[:200]))
+    mem = max(int(c[1]), 0)
+    faults = c[5].split('.')
+    quota = [int(f[1:]) for f in faults if f.startswith('q')]
+    if status not in ('eof', 'error', 'incomplete', 'earlyeof', 'noroom'):
+        return ('driver-protocol-' + status, 'consume() broke its calling protocol under an I/O fault: ' + status)
+    if fd_after != 0:
+        return ('descriptor-left-open', 'descriptors on upload files still open after the parser and its files were destroyed (faults %s)' % c[5])
+    if tmp_after != 0:
+        if status == 'noroom' and quota and quota[0] < mem and 'o' not in faults:
+            # the write that moves the buffered bytes into the new file failed (repaired by /repo 6c3ce6d: file::close tests file_created())
+            return ('temp-file-left-after-failed-spill', 'the spill itself failed (quota %d < in-memory limit %d) and the temporary file stays behind' % (quota[0], mem))
+        return ('temp-file-left-behind', 'temporary upload files still exist after the parser and its files were destroyed (faults %s, status %s)' % (c[5], status))
+    for name, size, readable in ents:
+        if size != readable:
+            return ('write-fault-unreported-entry-cut', 'entry %s reported complete with size %s but only %s bytes can be read back (faults %s)' % (name, size, readable, c[5]))
+    return None
+
+
 def oracle(case, out):
     c = case.split()
     op = c[0]
@@ -1027,6 +1137,8 @@ def oracle(case, out):
             if t[4:] != e[1:] or int(t[3]) != int(e[0]):
                 return ('wrong-query-fields', 'get() differs from the pairs encoded in the query string: %s vs %s' % (t[3:9], e[:6]))
         return None
+    if op == 'fi':
+        return oracle_fi(c, out)
     if out.startswith('<crash'):
         return ('crash-' + op, 'harness died on this input: ' + out)
     if not out.startswith(op + ' '):
@@ -1123,12 +1235,16 @@ def nontrivial(case, out):
         return c[9] != '-'
     if c[0] == 'gq':
         return c[1] != '-'
+    if c[0] == 'fi':
+        return ' refused' not in out
     body = c[4] if c[0] == 'mp' else c[3]
     return body != '-' and ' refused' not in out
 
 
 def classify(case, out):
     c = case.split()
+    if c[0] == 'fi':
+        return 'fi:%s:%s' % (''.join(sorted(f[0] for f in c[5].split('.') if f)), out.split()[1] if len(out.split()) > 1 else '?')
     if c[0] == 'gq':
         return 'gq:%s:%s' % ('wellformed' if c[-1] != '-' and len(c) > 2 else 'malformed', 'empty' if out.split()[3:4] == ['0'] else 'pairs')
     if c[0] == 'rf':
@@ -1158,11 +1274,18 @@ RULE = ('generated: (1) well-formed multipart bodies from an independent Python 
         'limit+1 bytes, the application closes / saves / makes permanent / keeps references in random order, refused and abandoned requests, '
         'plus EVERY action sequence up to length 2 (thorough 3) over two files; descriptors and directory entries counted at four points; '
         '(7) a multipart filter that throws abort_upload at its k-th on_new_file; (8) gq: GET query strings under any per-byte encoding, '
-        'mutated ones, fixed malformed ones; (9) bodies with bare CRs in part headers, five shapes (must be refused or framed exactly; regression of /repo 3fc4520). A case is non-trivial when it has a '
+        'mutated ones, fixed malformed ones; (10) fi: I/O faults on the temporary files (byte quota around the in-memory limit / inside the upload / at its last flush, '
+        'failing fopen, fflush, fclose, combinations); (11) multipart filters that read the parts (all / half / seek end / seek middle / istream::read) in '
+        'on_new_file, on_upload_progress, on_data_ready and do not rewind, 80 of the 126 combinations per quick run; (9) bodies with bare CRs in part headers, five shapes (must be refused or framed exactly; regression of /repo 3fc4520). A case is non-trivial when it has a '
         'non-empty body and the Content-Type was accepted; distinct = distinct case lines (md5).')
 
 
 def run(ctx):
+    # the two C++ harnesses are compiled while Coq runs (they do not depend on each other)
+    import concurrent.futures
+    pool = concurrent.futures.ThreadPoolExecutor(max_workers=2)
+    f_exe = pool.submit(vlib.build_harness, 'C12_multipart', ['C12_multipart.cpp'])
+    f_sexe = pool.submit(vlib.build_harness, 'C12_service', ['C12_service.cpp'], extra=['-ldl'])
     errs = vlib.gen_coq(GEN)
     for n, e in errs:
         ctx.broke('translator cxx2v failed on %s (tie to source broken)' % n, e)
@@ -1180,8 +1303,7 @@ def run(ctx):
         'checks/C12.py (independent Python encoders for multipart and urlencoded bodies, generators, oracle)',
         'hand model of multipart_parser::consume/process_header/parse_pair, content_type::parse, skip_ws/tocken/unquote, '
         'request::on_content_start/on_content_progress/size_ok/parse_form_urlencoded, util::urldecode (coq/C12/Defs.v), tied by correspondence']
-    ctx.assumptions = ['writes to the upload buffer succeed (no_room_left is an I/O failure, not modelled); fopen/fclose/rename/remove on the upload '
-                       'directory succeed; save_to target on the same file system (rename succeeds)',
+    ctx.assumptions = ['remove() and rename() on the upload directory succeed; a failing fwrite writes nothing; save_to target on the same file system',
                        'boundary key: RFC 2046 bchars (proved CR-free); a key containing CR is outside the quantifier (matcher_needs_cr_free_key_refuted '
                        'delimits the domain)',
                        'boundary key contains no CR (RFC 2046 bchars) for matcher_correct / decode_encode / part_content_reconstructed',
@@ -1190,11 +1312,11 @@ def run(ctx):
                        'CONTENT_TYPE reaches http::request as a C string (no NUL inside)',
                        'the request-level harness uses the SCGI front end only; a closed connection before the declared length is '
                        'modelled as no answer (status none)']
-    exe, err = vlib.build_harness('C12_multipart', ['C12_multipart.cpp'])
+    exe, err = f_exe.result()
     if not exe:
         ctx.broke('harness build failed', err)
         return
-    sexe, err = vlib.build_harness('C12_service', ['C12_service.cpp'], extra=['-ldl'])
+    sexe, err = f_sexe.result()
     if not sexe:
         ctx.broke('service harness build failed', err)
         return
